@@ -183,12 +183,13 @@ fn gen_shape(src: &mut Src) -> MShape {
     match src.below(3) {
         0 => MShape::Rect(p(src), p(src)),
         1 => {
-            let n = src.usize_in(3, 6);
+            // (down to the degenerate lists: a point is moved like any other, whatever list holds it)
+            let n = if src.prob(1, 8) { src.usize_in(1, 2) } else { src.usize_in(3, 6) };
             MShape::Poly((0..n).map(|_| p(src)).collect())
         }
         _ => {
-            let n = src.usize_in(2, 5);
-            MShape::Path((0..n).map(|_| p(src)).collect(), src.usize_in(1, 9))
+            let n = if src.prob(1, 6) { 1 } else { src.usize_in(2, 5) };
+            MShape::Path((0..n).map(|_| p(src)).collect(), src.usize_in(0, 9))
         }
     }
 }
